@@ -31,6 +31,8 @@ func genScenario(seed int64, profile string, allow map[string]bool) *Scenario {
 		return genFault(seed, allow)
 	case "bots":
 		return genBots(seed, allow)
+	case "timeout":
+		return genTimeout(seed, allow)
 	}
 	r := rand.New(rand.NewSource(seed*7919 + 17))
 	sc := &Scenario{Seed: seed, Mode: []string{"ct", "ct", "cash", "mtt"}[r.Intn(4)], Rule: "default", MinPlayers: 2,
